@@ -84,7 +84,12 @@ def run(p: Program, rep: Report, tier: str) -> None:
                 else:
                     rep.ok("R10.1", f"{side}: channel read only after `_stream_consumed` was tested false and set true")
             if flag_true:
-                if pa.exit == "raise" and pa.value == "RuntimeError" and not reads:
+                if pa.exit == "raise" and pa.value == "RuntimeError" and not reads and not (any(x is False for x in present) or any((not t) and ".done()" in show(f) for f, t in pa.facts)):
+                    n_raise += 1
+                    rep.violation("R10.1", construct(st, text="consumed test before the cached-body replay"), where(st),
+                                  f"{side}: stream() raises 'Stream consumed' on a path that has not established that no (completed) body is cached: reading `body` sets the consumed flag AND caches "
+                                  "the bytes, so `body` followed by `stream()` / a multipart `form` raises instead of replaying the cached body", path_facts=pa.fact_text())
+                elif pa.exit == "raise" and pa.value == "RuntimeError" and not reads:
                     n_raise += 1
                     rep.ok("R10.1", f"{side}: consumed stream -> RuntimeError without touching the channel")
                 else:
